@@ -250,14 +250,23 @@ class Crazyflie():
         self.state = State.INITIALIZED
         self.link_uri = link_uri
         try:
-            self.link = cflib.crtp.get_link_driver(
+            link = cflib.crtp.get_link_driver(
                 link_uri, self.link_statistics.radio_link_statistics_callback, self._link_error_cb)
+            self.link = link
 
-            if not self.link:
+            # Look at the driver we got, not at self.link: the driver's own
+            # thread may already have reported an error (which clears
+            # self.link and signals connection_failed itself)
+            if not link:
                 message = 'No driver found or malformed URI: {}' \
                     .format(link_uri)
                 logger.warning(message)
                 self.connection_failed.call(link_uri, message)
+            elif self.state != State.INITIALIZED:
+                # The error was reported while the driver was being opened:
+                # the attempt is over, do not keep the dead driver
+                link.close()
+                self.link = None
             else:
                 # Add a callback so we can check that any data is coming
                 # back from the copter
